@@ -142,7 +142,7 @@ def run(tier, seed):
     chk.notes['shape_cases'] = len(infer_tr)
     # random beyond the model
     split_tr = []
-    n = 1500 if thorough else 300
+    n = 12000 if thorough else 300
     structural = ['((y)(y))', 'a((y)(y))', '(i(s(y)(y))d)', '((y)(y)(y))', 'a{s(y)}a{s(y)}', '(a{sv}a{sv})', '((a{s(y)})(a(y)))',
                   '(((y))((y)))', 'a(a(y)a(y))', '(y(y)y(y))', 'aa{y(a{ys})}(a{ys}a{ys})']
     for sg in structural:
